@@ -2,3 +2,4 @@
 pub mod report;
 pub mod wire;
 pub mod par;
+pub mod sim;
